@@ -39,6 +39,8 @@ struct Job {
     arm: Option<ExecPlan>,
     pred: Option<bool>,
     check: Option<bool>,
+    /// what the body does besides returning (re-entrant call, panic), if it runs
+    nested: Option<vhooks::NestedPlan>,
 }
 struct JobOut {
     /// Ok(Some) = completed, Ok(None) = pending (or dropped)
@@ -46,6 +48,8 @@ struct JobOut {
     events: Vec<Event>,
     /// locks held by the actor thread when the job returned (must be empty at a suspension point)
     held: Vec<String>,
+    /// what the scripted re-entrant part of the body did (None: the body did not run)
+    nested: Option<vhooks::NestedOut>,
 }
 struct Actor {
     tx: mpsc::Sender<Job>,
@@ -76,6 +80,7 @@ impl Actor {
                 }
                 vhooks::arm_pred(j.pred);
                 vhooks::arm_check(j.check);
+                vhooks::arm_nested(j.nested);
                 let mut cx = std::task::Context::from_waker(&waker);
                 let out: Result<Option<CallOut>, String> = match j.kind {
                     JobKind::Call(call) => {
@@ -132,9 +137,11 @@ impl Actor {
                     }
                 };
                 vhooks::disarm_exec();
+                let nested = vhooks::take_nested();
+                vhooks::arm_nested(None);
                 let events = vhooks::take_log();
                 let held = vmon::lockmon::held_now().iter().map(|h| vmon::lockmon::fmt_site(h.site)).collect();
-                if otx.send(JobOut { out, events, held }).is_err() {
+                if otx.send(JobOut { out, events, held, nested }).is_err() {
                     break;
                 }
             }
@@ -228,6 +235,10 @@ enum Op {
     PollStep { actor: usize },
     /// drop the call suspended on `actor`
     PollDrop { actor: usize },
+    /// a call (`outer`, an Op::Call) whose body, if it runs, calls another decorated function from
+    /// inside (`inner`, an Op::Call on the same thread: re-entrancy, as in a recursive memoised
+    /// function) and/or panics (the user's own code fails)
+    Nested { outer: Box<Op>, inner: Option<Box<Op>>, body_panics: bool },
 }
 fn op_json(o: &Op) -> Value {
     match o {
@@ -243,6 +254,7 @@ fn op_json(o: &Op) -> Value {
         Op::PollStart { f, slot, actor, pure_, value, ok, len, pred, check } => json!({"op":"poll_start","f":f,"slot":slot,"actor":actor,"pure":pure_,"value":value,"ok":ok,"len":len,"pred":pred,"check":check}),
         Op::PollStep { actor } => json!({"op":"poll_step","actor":actor}),
         Op::PollDrop { actor } => json!({"op":"poll_drop","actor":actor}),
+        Op::Nested { outer, inner, body_panics } => json!({"op":"nested","outer":op_json(outer),"inner":inner.as_ref().map(|i| op_json(i)),"body_panics":body_panics}),
     }
 }
 fn op_from(v: &Value) -> Op {
@@ -259,6 +271,7 @@ fn op_from(v: &Value) -> Op {
         "poll_start" => Op::PollStart { f: u("f") as usize, slot: u("slot") as u32, actor: u("actor") as usize, pure_: v["pure"].as_bool().unwrap(), value: u("value"), ok: v["ok"].as_bool().unwrap(), len: v["len"].as_u64().map(|x| x as usize), pred: v["pred"].as_bool().unwrap(), check: v["check"].as_bool().unwrap() },
         "poll_step" => Op::PollStep { actor: u("actor") as usize },
         "poll_drop" => Op::PollDrop { actor: u("actor") as usize },
+        "nested" => Op::Nested { outer: Box::new(op_from(&v["outer"])), inner: if v["inner"].is_null() { None } else { Some(Box::new(op_from(&v["inner"]))) }, body_panics: v["body_panics"].as_bool().unwrap_or(false) },
         _ => Op::StatsReset { f: u("f") as usize },
     }
 }
@@ -500,19 +513,19 @@ impl<'a> Hist<'a> {
         let cfg = self.fns[f].cfg;
         let wd = self.fns[f].wd;
         let arm = if pure_ { None } else { Some(ExecPlan { value: Some(value), ok, len }) };
-        let jo = self.actors[actor].run(Job { kind: JobKind::Call(d.call), slot, arm, pred: Some(pred), check: Some(check) });
+        let jo = self.actors[actor].run(Job { kind: JobKind::Call(d.call), slot, arm, pred: Some(pred), check: Some(check), nested: None });
         for s in self.susp.values_mut() {
             s.interleaved_ops += 1;
         }
         if !self.susp.is_empty() {
             self.rep.count("C20", "complete_calls_while_another_is_suspended", 1);
         }
-        self.finish_call(f, slot, actor, pure_, value, ok, pred, check, jo, now)
+        self.finish_call(f, slot, actor, pure_, value, ok, pred, check, jo, now, true)
     }
 
     /// everything after the real call returned: compare with the wrapper model
     #[allow(clippy::too_many_arguments)]
-    fn finish_call(&mut self, f: usize, slot: u32, actor: usize, pure_: bool, value: u64, ok: bool, pred: bool, check: bool, jo: JobOut, now: i64) -> Result<(), Viol> {
+    fn finish_call(&mut self, f: usize, slot: u32, actor: usize, pure_: bool, value: u64, ok: bool, pred: bool, check: bool, jo: JobOut, now: i64, observe: bool) -> Result<(), Viol> {
         let d = self.fns[f].d;
         let cfg = self.fns[f].cfg;
         let wd = self.fns[f].wd;
@@ -565,8 +578,9 @@ impl<'a> Hist<'a> {
         // evidence counters from the pre-state
         self.count_call_evidence(f, bi, slot, now, pure_, ok, pred, check);
         // listing (global/async)
-        let listed = self.observe_listing(f, if executed { Some(slot) } else { None })?;
-        let stats = if self.fns[f].shared() { stats_of(d.reg_name) } else { None };
+        // (a re-entrant call into the same cache is observed only once its caller has returned)
+        let listed = if observe { self.observe_listing(f, if executed { Some(slot) } else { None })? } else { None };
+        let stats = if observe && self.fns[f].shared() { stats_of(d.reg_name) } else { None };
         let n_pred = preds.len() as u32;
         let n_check = checks.len() as u32;
         let m = &mut self.fns[f];
@@ -679,7 +693,7 @@ impl<'a> Hist<'a> {
         let cfg = self.fns[f].cfg;
         let wd = self.fns[f].wd;
         let arm = if pure_ { None } else { Some(ExecPlan { value: Some(value), ok, len }) };
-        let jo = self.actors[actor].run(Job { kind: JobKind::Start(d.fut.unwrap()), slot, arm, pred: Some(pred), check: Some(check) });
+        let jo = self.actors[actor].run(Job { kind: JobKind::Start(d.fut.unwrap()), slot, arm, pred: Some(pred), check: Some(check), nested: None });
         self.proc_.used.insert(d.fid);
         self.rep.count("C20", "calls_polled_by_hand", 1);
         self.rep.count("L2", "polls", 1);
@@ -687,7 +701,7 @@ impl<'a> Hist<'a> {
             Ok(Some(_)) => {
                 // served from the cache before reaching an await point: an ordinary call
                 self.rep.count("C20", "polled_calls_completed_without_suspension", 1);
-                return self.finish_call(f, slot, actor, pure_, value, ok, pred, check, jo, now);
+                return self.finish_call(f, slot, actor, pure_, value, ok, pred, check, jo, now, true);
             }
             Err(msg) => {
                 return Err(Viol { prop: "C16".into(), sig: sig("C16", "L2", &cfg, "panic-in-polled-call", ""), what: format!("first poll of {} panicked: {}", d.fn_name, msg), detail: json!({"fid": d.fid, "panic": msg}) });
@@ -746,7 +760,7 @@ impl<'a> Hist<'a> {
         let d = self.fns[s.f].d;
         let cfg = self.fns[s.f].cfg;
         let wd = self.fns[s.f].wd;
-        let jo = self.actors[actor].run(Job { kind: JobKind::Step, slot: s.slot, arm: None, pred: Some(s.pred), check: None });
+        let jo = self.actors[actor].run(Job { kind: JobKind::Step, slot: s.slot, arm: None, pred: Some(s.pred), check: None, nested: None });
         self.rep.count("L2", "polls", 1);
         match jo.out {
             Err(msg) => {
@@ -828,7 +842,7 @@ impl<'a> Hist<'a> {
         };
         let d = self.fns[s.f].d;
         let cfg = self.fns[s.f].cfg;
-        let jo = self.actors[actor].run(Job { kind: JobKind::Drop, slot: s.slot, arm: None, pred: None, check: None });
+        let jo = self.actors[actor].run(Job { kind: JobKind::Drop, slot: s.slot, arm: None, pred: None, check: None, nested: None });
         self.rep.count("C20", "suspended_calls_dropped", 1);
         self.rep.distinct("C20", hash64(&[d.fid as u64, 3, s.gates_passed as u64, s.interleaved_ops.min(3) as u64]));
         if !jo.held.is_empty() {
@@ -837,6 +851,226 @@ impl<'a> Hist<'a> {
         // as if the call had only performed its lookup: nothing in the cache or the statistics changes
         self.filter_by_listing(s.f, None, "drop")?;
         self.check_stats(s.f)
+    }
+
+    /// A call whose body (if it runs) makes a re-entrant decorated call and/or panics.  Modelled as
+    /// what the statements imply for the three steps in the order in which they really happen:
+    /// lookup of the outer call; the complete inner call; store of the outer result (none if the
+    /// body panicked).  Nothing may panic or block on the way (C16, C17).
+    fn do_nested(&mut self, outer: &Op, inner: Option<&Op>, body_panics: bool) -> Result<(), Viol> {
+        let (f, slot, actor, pure_, value, ok, len, pred, check) = match outer {
+            Op::Call { f, slot, actor, pure_, value, ok, len, pred, check } => (*f, *slot, *actor, *pure_, *value, *ok, *len, *pred, *check),
+            _ => return Ok(()),
+        };
+        let inner_c = match inner {
+            Some(Op::Call { f, slot, pure_, value, ok, len, pred, check, .. }) => Some((*f, *slot, *pure_, *value, *ok, *len, *pred, *check)),
+            _ => None,
+        };
+        let now = vmon::clock::now();
+        let d = self.fns[f].d;
+        let cfg = self.fns[f].cfg;
+        let wd = self.fns[f].wd;
+        let np = vhooks::NestedPlan {
+            at_fid: d.fid,
+            call: inner_c.map(|(fi, si, ..)| (self.fns[fi].d.call, si)),
+            plan: inner_c.and_then(|(_, _, ip, iv, iok, ilen, ..)| if ip { None } else { Some(ExecPlan { value: Some(iv), ok: iok, len: ilen }) }),
+            pred: inner_c.map(|c| c.6),
+            check: inner_c.map(|c| c.7),
+            panic: body_panics,
+        };
+        let arm = if pure_ { None } else { Some(ExecPlan { value: Some(value), ok, len }) };
+        let mut jo = self.actors[actor].run(Job { kind: JobKind::Call(d.call), slot, arm, pred: Some(pred), check: Some(check), nested: Some(np) });
+        for s in self.susp.values_mut() {
+            s.interleaved_ops += 1;
+        }
+        let no = match jo.nested.take() {
+            // the body did not run: an ordinary call served from the cache
+            None => return self.finish_call(f, slot, actor, pure_, value, ok, pred, check, jo, now, true),
+            Some(no) => no,
+        };
+        self.rep.count("L2", "calls", 1);
+        self.rep.count("C16", "calls_under_catch_unwind", 1);
+        self.rep.count("C16", if body_panics { "calls_whose_body_panics" } else { "calls_with_reentrant_body" }, 1);
+        self.rep.count("C17", if body_panics { "calls_whose_body_panics" } else { "calls_with_reentrant_body" }, 1);
+        if inner_c.map_or(false, |c| c.0 == f) {
+            self.rep.count("C17", "reentrant_calls_into_the_same_cache", 1);
+        }
+        self.proc_.used.insert(d.fid);
+        let blocked = |msg: &str| msg.starts_with(vmon::lockmon::SELF_DEADLOCK);
+        let inner_name = inner_c.map_or("-", |c| self.fns[c.0].d.fn_name);
+        // the inner call itself
+        let inner_co = match no.out {
+            None => None,
+            Some(Ok(co)) => Some(co),
+            Some(Err(msg)) => {
+                let same = inner_c.map_or(false, |c| c.0 == f);
+                if blocked(&msg) {
+                    return Err(Viol { prop: "C17".into(), sig: sig("C17", "L2", &cfg, "reentrant-call-blocks-forever", if same { "same-cache" } else { "other-cache" }), what: format!("{} called from inside the body of {} can never return: {}", inner_name, d.fn_name, msg), detail: json!({"fid": d.fid, "attrs": d.attr_text, "inner": inner_name, "panic": msg}) });
+                }
+                return Err(Viol { prop: "C16".into(), sig: sig("C16", "L2", &cfg, "panic-in-reentrant-call", if same { "same-cache" } else { "other-cache" }), what: format!("{} called from inside the body of {} panicked: {}", inner_name, d.fn_name, msg), detail: json!({"fid": d.fid, "attrs": d.attr_text, "inner": inner_name, "panic": msg}) });
+            }
+        };
+        // the outer call
+        let outer_co = match &jo.out {
+            Ok(Some(co)) => {
+                if body_panics {
+                    return Err(Viol { prop: "C01".into(), sig: sig("C01", "L2", &cfg, "call-returned-although-its-body-panicked", ""), what: format!("{} returned a value although its body panicked", d.fn_name), detail: json!({"fid": d.fid}) });
+                }
+                Some(*co)
+            }
+            Ok(None) => return Err(Viol { prop: "C20".into(), sig: sig("C20", "L2", &cfg, "complete-call-did-not-complete", ""), what: "a call with every await point open returned Pending".into(), detail: json!({"fid": d.fid}) }),
+            Err(msg) => {
+                if blocked(msg) {
+                    return Err(Viol { prop: "C17".into(), sig: sig("C17", "L2", &cfg, "call-blocks-forever-after-reentrant-body", ""), what: format!("{} can never return after its body called {}: {}", d.fn_name, inner_name, msg), detail: json!({"fid": d.fid, "attrs": d.attr_text, "panic": msg}) });
+                }
+                if !(body_panics && msg.starts_with(vhooks::SCRIPTED_BODY_PANIC)) {
+                    let disc = format!("limit={},mem={}", d.limit.is_some(), d.max_memory.is_some());
+                    return Err(Viol { prop: "C16".into(), sig: sig("C16", "L2", &cfg, "panic-in-decorated-call", &disc), what: format!("call of {} (whose body called {}) panicked: {}", d.fn_name, inner_name, msg), detail: json!({"fid": d.fid, "attrs": d.attr_text, "panic": msg}) });
+                }
+                None
+            }
+        };
+        if !jo.held.is_empty() {
+            return Err(Viol { prop: "C17".into(), sig: sig("C17", "L2", &cfg, "lock-still-held-after-call", if body_panics { "body-panicked" } else { "" }), what: format!("locks acquired at {:?} are still held by the calling thread after {} returned{}", jo.held, d.fn_name, if body_panics { " (its body panicked)" } else { "" }), detail: json!({"fid": d.fid, "held": jo.held}) });
+        }
+        // --- step 1: the outer call's lookup (the body ran)
+        let n_check = jo.events.iter().filter(|e| matches!(e, Event::Check { fid, .. } if *fid == d.fid)).count() as u32;
+        let n_pred = jo.events.iter().filter(|e| matches!(e, Event::Pred { fid, .. } if *fid == d.fid)).count() as u32;
+        let exp_value = if pure_ { vhooks::mix(d.fid, (d.digest)(slot)) } else { value };
+        let exp_ok = if pure_ { true } else { ok || !d.is_result };
+        let bi = self.fns[f].belief_ix(actor);
+        let plan = Plan { value: exp_value, ok: exp_ok, fp: 0, pred, check };
+        let mut stale = false;
+        let before = self.fns[f].beliefs[bi].states.clone();
+        let step = self.fns[f].beliefs[bi].advance(|s| {
+            let mut keep = vec![];
+            for o in wrapper::call(&cfg, &wd, s, slot as Key, now, &plan) {
+                if o.executed && o.n_check == n_check {
+                    if o.why == Why::Stale {
+                        stale = true;
+                    }
+                    keep.push(o.mid.clone());
+                }
+            }
+            (keep, vec![])
+        });
+        if let Step::Empty { .. } = step {
+            // the body should not have run (or the check was consulted differently): the ordinary
+            // explanation of a complete call says which statement that contradicts
+            self.fns[f].beliefs[bi].states = before;
+            if jo.out.as_ref().map_or(false, |o| o.is_some()) {
+                return self.finish_call(f, slot, actor, pure_, value, ok, pred, check, jo, now, true);
+            }
+            return Err(Viol { prop: "C03".into(), sig: sig("C03", "L2", &cfg, "recomputed-although-cached", "body-panicked"), what: format!("slot {} recomputed although its result is cached (or invalidate_on consulted {} times)", slot, n_check), detail: json!({"fid": d.fid}) });
+        }
+        if let Step::Overflow = step {
+            self.rep.inconclusive("L2", "belief cap (thread-scope function with random/tie choices)");
+            return Err(Viol { prop: "".into(), sig: "".into(), what: "".into(), detail: json!(null) });
+        }
+        if !body_panics {
+            // (an execution that panicked produced no result: the next call has to run the body again)
+            *self.fns[f].execs.entry((actor, slot)).or_insert(0) += 1;
+        }
+        // --- step 2: the complete inner call
+        if let (Some((fi, si, ip, iv, iok, _ilen, ipred, icheck)), Some(co)) = (inner_c, inner_co) {
+            let ji = JobOut { out: Ok(Some(co)), events: no.events, held: vec![], nested: None };
+            self.finish_call(fi, si, actor, ip, iv, iok, ipred, icheck, ji, now, fi != f)?;
+        }
+        // --- step 3: the outer result is stored (or the body panicked: nothing is)
+        let stored = match outer_co {
+            None => false,
+            Some(_) => {
+                if wd.has_cache_if {
+                    pred && !(wd.is_result && !wd.is_async && !exp_ok)
+                } else {
+                    !(wd.is_result && !exp_ok)
+                }
+            }
+        };
+        if let Some(co) = &outer_co {
+            if co.value != exp_value || (d.is_result && co.ok != exp_ok) {
+                return Err(Viol { prop: "C01".into(), sig: sig("C01", "L2", &cfg, "executed-call-returned-other-value", "reentrant-body"), what: format!("{} returned {:x}, its body produced {:x}", d.fn_name, co.value, exp_value), detail: json!({"fid": d.fid}) });
+            }
+            if pure_ && co.value != co.twin {
+                return Err(Viol { prop: "C01".into(), sig: sig("C01", "L2", &cfg, "executed-call-differs-from-twin", "reentrant-body"), what: format!("{} returned {:x}, undecorated twin returns {:x}", d.fn_name, co.value, co.twin), detail: json!({"fid": d.fid}) });
+            }
+            let exp_pred = if wd.has_cache_if { 1 } else { 0 };
+            if n_pred != exp_pred {
+                return Err(Viol { prop: "C10".into(), sig: sig("C10", "L2", &cfg, "predicate-consulted-wrong-number-of-times", "reentrant-body"), what: format!("cache_if consulted {} times, expected {}", n_pred, exp_pred), detail: json!({"fid": d.fid}) });
+            }
+            self.fns[f].vals.insert(exp_value, (exp_ok, co.rdig));
+        }
+        let fp = outer_co.map_or(0, |c| c.fp);
+        let listed = self.observe_listing(f, if stored { Some(slot) } else { None })?;
+        let stats = if self.fns[f].shared() { stats_of(d.reg_name) } else { None };
+        let m = &mut self.fns[f];
+        let before = m.beliefs[bi].states.clone();
+        let step = m.beliefs[bi].advance(|st| {
+            let mut outs: Vec<State> = if stored { model::store(&cfg, st, slot as Key, exp_value, fp, now) } else { vec![st.clone()] };
+            if !stored && stale {
+                let mut t = st.clone();
+                t.remove_keys(&std::iter::once(slot as Key).collect());
+                outs.push(t);
+            }
+            let allowed: Vec<String> = outs.iter().take(5).map(model::fmt_state).collect();
+            let keep: Vec<State> = outs.into_iter().filter(|o| listed.as_ref().map_or(true, |l| o.keys() == *l) && stats.map_or(true, |g| (o.hits, o.misses) == g)).collect();
+            (keep, allowed)
+        });
+        match step {
+            Step::Ok => {}
+            Step::Overflow => {
+                self.rep.inconclusive("L2", "belief cap (thread-scope function with random/tie choices)");
+                return Err(Viol { prop: "".into(), sig: "".into(), what: "".into(), detail: json!(null) });
+            }
+            Step::Empty { allowed, .. } => {
+                let pre = &before[0];
+                let ctx = if body_panics { "body-panicked" } else { "reentrant-body" };
+                let detail = json!({"fid": d.fid, "attrs": d.attr_text, "cfg": cfg_json(&cfg), "slot": slot, "inner": inner_name, "pre": model::fmt_state(pre), "observed": {"listing_slots": listed, "stats": stats.map(|s| vec![s.0, s.1])}, "allowed": allowed});
+                let mk = |p: &str, kind: &str, what: String| Viol { prop: p.into(), sig: sig(p, "L2", &cfg, kind, ctx), what, detail: detail.clone() };
+                if let Some(l) = &listed {
+                    let content_ok = before.iter().any(|st| {
+                        let outs: Vec<State> = if stored { model::store(&cfg, st, slot as Key, exp_value, fp, now) } else { vec![st.clone()] };
+                        outs.iter().any(|o| o.keys() == *l) || (!stored && stale && { let mut t = st.clone(); t.remove_keys(&std::iter::once(slot as Key).collect()); t.keys() == *l })
+                    });
+                    if !content_ok {
+                        let has = l.contains(&slot);
+                        if !stored && has && pre.get(slot as Key).is_none() {
+                            if body_panics {
+                                return Err(mk("C01", "entry-stored-for-a-call-whose-body-panicked", format!("slot {} is cached although the body of {} panicked", slot, d.fn_name)));
+                            }
+                            if d.has_cache_if && !pred {
+                                return Err(mk("C10", "rejected-result-stored", format!("slot {}: cache_if returned false but the key is cached afterwards", slot)));
+                            }
+                            return Err(mk("C09", "err-result-stored", format!("slot {}: Err outcome but the key is cached afterwards", slot)));
+                        }
+                        if stored && l.iter().all(|k| *k == slot || pre.get(*k as Key).is_some()) {
+                            let post: BTreeMap<Key, (u64, usize)> = l.iter().map(|k| (*k as Key, (if *k == slot { exp_value } else { pre.get(*k as Key).map_or(0, |e| e.val) }, if *k == slot { fp } else { pre.get(*k as Key).map_or(0, |e| e.fp) }))).collect();
+                            let (p, sg, what) = classify_store("L2", &cfg, pre, slot as Key, exp_value, fp, now, &post);
+                            return Err(Viol { prop: p, sig: format!("{},{}", sg, ctx), what: format!("{} (store of a call whose body called {})", what, inner_name), detail });
+                        }
+                        return Err(mk("C19", "cache-content-after-call-unexplained", format!("after {} (whose body called {}) returned the cache lists {:?}; the configured model allows {:?}", d.fn_name, inner_name, l, allowed)));
+                    }
+                }
+                if stats.is_some() {
+                    return Err(mk("C15", "hit-miss-counters", format!("stats {:?} differ from the model after the call", stats)));
+                }
+                return Err(mk("C19", "behaviour-differs-from-configured-model", "observation not explained by the model configured from the attributes".into()));
+            }
+        }
+        let m = &mut self.fns[f];
+        if stored {
+            m.stored_by.insert(slot, actor);
+            m.nostore.remove(&slot);
+            m.resumed_store.remove(&slot);
+            if stale {
+                m.refreshed.insert(slot);
+            } else {
+                m.refreshed.remove(&slot);
+            }
+        } else if !body_panics {
+            m.nostore.insert(slot, if wd.has_cache_if && !pred { StoreDecision::SkippedPredicate } else { StoreDecision::SkippedErr });
+        }
+        Ok(())
     }
 
     fn count_call_evidence(&mut self, f: usize, bi: usize, slot: u32, now: i64, pure_: bool, ok: bool, pred: bool, check: bool) {
@@ -1104,6 +1338,7 @@ impl<'a> Hist<'a> {
             }
             Op::PollStep { actor } => self.do_poll_step(*actor),
             Op::PollDrop { actor } => self.do_poll_drop(*actor),
+            Op::Nested { outer, inner, body_panics } => self.do_nested(outer, inner.as_deref(), *body_panics),
             Op::InvWith { f, slots } => {
                 let strs = self.pred_strings(*f, slots);
                 let name = self.fns[*f].d.reg_name;
@@ -1364,9 +1599,9 @@ fn gen_op(g: &mut Gen, h: &Hist, n_actors: usize, focus: &str) -> Op {
     }
     acc += w_group;
     if r < acc {
-        let pool_t = ["t_user", "t_geo", "t_cfg", "shared_a", "shared_b", "shared_c", "nobody_declares_this", "e_upd", "d_db"];
-        let pool_e = ["e_upd", "e_del", "shared_a", "shared_c", "shared_b", "nobody_declares_this", "t_user"];
-        let pool_d = ["d_db", "d_idx", "shared_b", "shared_c", "shared_a", "nobody_declares_this", "e_del"];
+        let pool_t = ["t_user", "t_geo", "t_cfg", "shared_a", "shared_b", "shared_c", "nobody_declares_this", "e_upd", "d_db", "UserData", "userdata", " padded ", "padded"];
+        let pool_e = ["e_upd", "e_del", "shared_a", "shared_c", "shared_b", "nobody_declares_this", "t_user", "E_Upper", "e_upper"];
+        let pool_d = ["d_db", "d_idx", "shared_b", "shared_c", "shared_a", "nobody_declares_this", "e_del", "Dep.X", "dep.x", "padded"];
         // most of the time aim at something a group member declares
         if g.rng.chance(3, 5) {
             let d = h.fns[g.rng.usize(nf)].d;
@@ -1376,7 +1611,20 @@ fn gen_op(g: &mut Gen, h: &Hist, n_actors: usize, focus: &str) -> Op {
             opts.extend(d.deps.iter().map(|x| Op::InvDep(x.to_string())));
             if !opts.is_empty() {
                 opts.push(Op::InvName(d.reg_name.to_string()));
-                return opts[g.rng.usize(opts.len())].clone();
+                let op = opts[g.rng.usize(opts.len())].clone();
+                // sometimes another spelling of the same label (other case, without the padding):
+                // it matches only caches that declare exactly that spelling
+                if g.rng.chance(1, 5) {
+                    let respell = |x: &String| if g.rng.clone().chance(1, 2) { x.trim().to_lowercase() } else { x.to_uppercase() };
+                    return match &op {
+                        Op::InvTag(x) => Op::InvTag(respell(x)),
+                        Op::InvEvent(x) => Op::InvEvent(respell(x)),
+                        Op::InvDep(x) => Op::InvDep(respell(x)),
+                        Op::InvName(x) => Op::InvName(respell(x)),
+                        _ => op,
+                    };
+                }
+                return op;
             }
         }
         return match g.rng.usize(4) {
@@ -1398,6 +1646,38 @@ fn gen_op(g: &mut Gen, h: &Hist, n_actors: usize, focus: &str) -> Op {
     if r < acc && !shared.is_empty() {
         return Op::StatsReset { f: *g.rng.pick(&shared) };
     }
+    // a call whose body calls another decorated function (most often: itself with other arguments,
+    // like a recursive memoised function) or panics
+    let (p_nested, p_panic) = match focus {
+        "C17" => (40, 8),
+        "C16" => (10, 5),
+        "C20" => (0, 0),
+        _ => (4, 1),
+    };
+    let r = g.rng.usize(100);
+    if r < p_nested + p_panic {
+        let outer = gen_call(g, h, f, n_actors, focus);
+        if let Op::Call { slot, actor, .. } = outer {
+            let body_panics = r >= p_nested;
+            let mut inner = None;
+            if !body_panics || g.rng.chance(1, 3) {
+                let same = nf == 1 || g.rng.chance(3, 5);
+                let fi = if same { f } else { g.rng.usize(nf) };
+                if let Op::Call { f: fi, slot: si, pure_, value, ok, len, pred, check, .. } = gen_call(g, h, fi, n_actors, focus) {
+                    // same cache: other arguments, and (for caches whose content is listed) a key
+                    // string that is already known, so that at most one new key appears per operation
+                    let ok_same = fi != f || (si != slot && (!h.fns[f].shared() || h.fns[f].keymap.contains_key(&si)));
+                    if ok_same {
+                        inner = Some(Box::new(Op::Call { f: fi, slot: si, actor, pure_, value, ok, len, pred, check }));
+                    }
+                }
+            }
+            if inner.is_some() || body_panics {
+                return Op::Nested { outer: Box::new(outer), inner, body_panics };
+            }
+            return outer;
+        }
+    }
     gen_call(g, h, f, n_actors, focus)
 }
 
@@ -1408,7 +1688,7 @@ fn new_fnmon(d: &'static FnDesc, n_actors: usize, rng: &mut Rng, focus: &str) ->
         _ => rng.chance(1, 2),
     };
     let cfg = cfg_of(d);
-    let cap = d.limit.unwrap_or(if d.max_memory.is_some() { 4 } else { 3 });
+    let cap = d.limit.unwrap_or(if d.max_memory.is_some() { 4 } else { 3 }).min(5);
     let n = (cap + 1 + rng.usize(3)).min(d.nslots as usize).max(1);
     let off = if d.nslots as usize > n { rng.usize(d.nslots as usize - n + 1) } else { 0 };
     let slots: Vec<u32> = (0..n).map(|i| (off + i) as u32).collect();
@@ -1424,7 +1704,7 @@ fn check_exactly_once(h: &mut Hist) -> Result<(), Viol> {
         if d.limit.is_some() || d.ttl.is_some() || d.max_memory.is_some() || d.has_cache_if || d.has_invalidate_on || d.is_result {
             continue;
         }
-        let invalidated = h.ops.iter().any(|o| !matches!(o, Op::Call { .. } | Op::Adv(_) | Op::StatsReset { .. }));
+        let invalidated = h.ops.iter().any(|o| !matches!(o, Op::Call { .. } | Op::Adv(_) | Op::StatsReset { .. } | Op::Nested { .. }));
         if invalidated {
             continue;
         }
@@ -1579,6 +1859,8 @@ fn main() {
     vmon::clock::init();
     // per-thread stacks of held locks (for "no lock held at a suspension point", C20)
     vmon::lockmon::install();
+    // this monitor is sequential: a blocking acquisition of a lock the thread holds is reported, not waited for
+    vmon::lockmon::self_deadlock_panics(true);
     let t0 = vmon::clock::real_mono_ns();
     let mut rep = Report::new();
     let mut proc_ = Proc { used: BTreeSet::new() };
